@@ -17,7 +17,9 @@ PROP = "C08"
 STAGES = ["none", "bad_owner_signature", "expired", "missing_link", "unauthorised_link", "corrupt_link_signature",
           "threshold_unmet", "disagreeing_links", "failing_step_rule", "failing_step_rule_match_from_inspection",
           "failing_step_rule_match_from_undefined", "failing_last_step_rule", "sublayout_expired", "sublayout_missing_link",
-          "sublayout_rule", "surplus_sublayout_missing_link", "surplus_sublayout_expired"]
+          "sublayout_rule", "surplus_sublayout_missing_link", "surplus_sublayout_expired",
+          # two links whose only difference is an additional artifact in one of them; three links for threshold 2, the third dissenting
+          "disagreeing_links_extra_artifact", "disagreeing_links_third_signer"]
 OUTCOMES = ["exit0", "exit1", "exit2", "exit127", "exit255", "killed", "not_found", "creates", "modifies", "deletes"]
 RULESETS = ["none", "satisfied", "violated_materials", "violated_products", "products_only_create_preexisting",
             "violated_products_named_like_a_step"]
@@ -50,7 +52,7 @@ def rules_of(rs):
 def build_cell(W, rng, stage, outcome, rs, ninsp, level, keyset=FUNC, random_extra=False):
     """returns (reqs, assemble(wires)->case)"""
     ka, kb, kc, kd = keyset[:4]
-    thr = 2 if stage in ("threshold_unmet", "disagreeing_links") else 1
+    thr = 2 if stage in ("threshold_unmet", "disagreeing_links", "disagreeing_links_extra_artifact", "disagreeing_links_third_signer") else 1
     insp = []
     tags = []
     for j in range(ninsp):
@@ -74,6 +76,8 @@ def build_cell(W, rng, stage, outcome, rs, ninsp, level, keyset=FUNC, random_ext
              scen.mk_step("package", 1, [W.kid(kc)], [], [["MATCH", "*", "WITH", "PRODUCTS", "FROM", "build"], ["ALLOW", "*"]], [["ALLOW", "*"]])]
     if stage == "failing_last_step_rule":
         steps[1]["expected_products"] = [["MATCH", "*", "WITH", "PRODUCTS", "FROM", "insp0"], ["DISALLOW", "*"]]
+    if stage == "disagreeing_links_third_signer":
+        steps[0]["pubkeys"] = [W.kid(ka), W.kid(kb), W.kid(kd)]
     surplus = stage.startswith("surplus_")
     if surplus:
         # the delegated step has a second authorised functionary who supplies a perfectly good plain link: the step
@@ -99,12 +103,19 @@ def build_cell(W, rng, stage, outcome, rs, ninsp, level, keyset=FUNC, random_ext
     idx["layout"] = len(reqs)
     reqs.append((layout, [inspected_owner], "new"))
     signer_build = [ka, kb][:thr]
+    if stage == "disagreeing_links_third_signer":
+        signer_build = [ka, kb, kd]
     if stage == "unauthorised_link":
         signer_build = [kd]          # kd is in the key table but not authorised for "build"
+    extra_k = rng.choice([ka, kb])
     for k in signer_build:
         d = copy.deepcopy(l_build)
         if stage == "disagreeing_links" and k == kb:
             d["products"]["out/o0"] = scen.digest(0x99)
+        if stage == "disagreeing_links_extra_artifact" and k == extra_k:
+            d[rng.choice(["materials", "products"])]["only/here"] = scen.digest(0x98)
+        if stage == "disagreeing_links_third_signer" and k == kd:
+            d["products"]["out/o0"] = scen.digest(0x97)
         idx[("build", k)] = len(reqs)
         reqs.append((d, [k], "new"))
     if surplus:
@@ -264,7 +275,7 @@ def main(ctx):
                           "levels": ["top", "delegated"], "cells": ncells}
     return common.finish(
         PROP, ctx.tier, ctx.seed, res, t0=ctx.t0, level="fault_enumeration",
-        rule="complete grid failing stage (17) x inspection outcome (10) x inspection rule set (6) x 1-2 inspections x "
+        rule="complete grid failing stage (19) x inspection outcome (10) x inspection rule set (6) x 1-2 inspections x "
              "{top-level, delegated layout}; every cell is one real in_toto_verify call in a fresh working directory, "
              "observed through the inspection command's own sentinel/snapshot files; every cell is non-trivial and "
              "distinct; thorough repeats the grid with other key types",
